@@ -134,13 +134,17 @@ Definition write_ready (s : st) (o : outcome) : st * out * bool :=
   else drained s [] [].
 
 (* ---- Poll (linux): what the kernel reports, unmapEvents, and the dispatch rule of run() ----- *)
-(* mapEvents: EPOLLIN iff readFlag, EPOLLOUT iff writeFlag; EPOLLHUP is reported regardless *)
+(* mapEvents: EPOLLIN iff readFlag, EPOLLOUT iff writeFlag, EPOLLRDHUP (and EPOLLHUP) iff either;
+   the kernel reports EPOLLHUP and EPOLLERR whether asked for or not *)
 Definition kernel_filter (s : st) (n : native) : native :=
-  mknative (nin n && int_r s) (nout n && int_w s) (nhup n).
+  mknative (nin n && int_r s) (nout n && int_w s) (nhup n) (nrdhup n && (int_r s || int_w s)) (nerr n).
+
+(* epoll_wait has something to report for the descriptor *)
+Definition reported (n : native) : bool := nin n || nout n || nhup n || nrdhup n || nerr n.
 
 Definition unmap_events (s : st) (n : native) : bool * bool :=
-  let r := (nin n || nhup n) && int_r s in                       (* result = events & readFlag *)
-  let w := (nout n || (negb r && nhup n)) && int_w s in          (* result |= events & writeFlag *)
+  let r := (nin n || nrdhup n || nhup n) && int_r s in           (* if (native & (IN|RDHUP|HUP)) result = events & readFlag *)
+  let w := (nout n || (negb r && (nrdhup n || nhup n))) && int_w s in   (* if (native & OUT || result == 0 && native & (RDHUP|HUP)) result |= events & writeFlag *)
   (r, w).
 
 Definition add_cb (r : out) (c : cb) : out :=
@@ -161,7 +165,7 @@ Definition dispatch (s : st) (n : native) (o : outcome) : st * out :=
   if negb (registered s) then (s, out_none)                      (* descriptor not in the epoll set *)
   else
     let n' := kernel_filter s n in
-    if negb (nin n' || nout n' || nhup n') then (s, out_none)    (* epoll_wait reports nothing *)
+    if negb (reported n') then (s, out_none)    (* epoll_wait reports nothing *)
     else
       let '(r, w) := unmap_events s n' in
       dispatch_flags s r w o.
@@ -173,7 +177,7 @@ Definition dispatch_unrepaired (s : st) (n : native) (o : outcome) : st * out :=
   if negb (registered s) then (s, out_none)
   else
     let n' := kernel_filter s n in
-    if negb (nin n' || nout n' || nhup n') then (s, out_none)
+    if negb (reported n') then (s, out_none)
     else
       let '(r, w) := unmap_events s n' in
       if r then (s, out_cb OnRead)
